@@ -77,6 +77,18 @@ Theorem C07_sector_has_no_overlaps : forall sc, In sc (List.concat all_sector_ce
 Proof. exact sector_no_overlap. Qed.
 Print Assumptions C07_sector_has_no_overlaps.
 
+(* exactly one: two operations that both map a direction strictly inside the sector are the same operation (same
+   improper flag, quaternions equal up to the overall sign) -- with "no gaps": a direction in general position has
+   exactly one symmetry-equivalent inside the sector.  Uses closure and inverses of the operation lists, checked
+   exactly for all 70 subjects. *)
+Theorem C07_exactly_one_operation : forall sc, In sc (List.concat all_sector_certs) ->
+  forall (x : vec3 (T:=R)) r s, In r (sc_ops sc) -> In s (sc_ops sc) ->
+  (forall n, In n (sc_N sc) -> 0 < vdot ROps (vtoR n) (ract ROps (rtoR r) x)) ->
+  (forall n, In n (sc_N sc) -> 0 < vdot ROps (vtoR n) (ract ROps (rtoR s) x)) ->
+  snd (rtoR s) = snd (rtoR r) /\ (fst (rtoR s) = fst (rtoR r) \/ fst (rtoR s) = qneg ROps (fst (rtoR r))).
+Proof. exact sector_unique_operation. Qed.
+Print Assumptions C07_exactly_one_operation.
+
 Theorem C07_sector_first_operation_is_identity : forall sc, In sc (List.concat all_sector_certs) ->
   exists r rest, sc_ops sc = r :: rest /\ rtoR r = (qone ROps, false).
 Proof. exact sector_identity_first. Qed.
